@@ -114,7 +114,7 @@ def _names(spec):
 
 
 def specs(tier: str):
-    return families.c01_specs(tier, kmode="all", extra_sigma="\né", max_inputs=45 if tier == "quick" else 160, extra_trivia=("cm_pred",))
+    return families.c01_specs(tier, kmode="all", extra_sigma="\né", max_inputs=40 if tier == "quick" else 160, extra_trivia=("cm_pred",))
 
 
 def run(tier: str) -> int:
